@@ -57,14 +57,24 @@ def deviation(l1table, obs):
 
 
 def run(ctx):
+    import time
+    t0 = time.time()
+    phase = {}
+
+    def lap(name):
+        nonlocal t0
+        phase[name] = round(time.time() - t0, 1)
+        t0 = time.time()
+
     # MC + GEN: every (origin, allow list) of the bounded model with the admitted outcomes
-    r = vf.mc(ctx, "CORS", ctx.pick("CORS_gen.cfg", "CORS_gen3.cfg"), workers=vf.NCPU, timeout=900,
+    r = vf.mc(ctx, "CORS", ctx.pick("CORS_gen.cfg", "CORS_gen3.cfg"), workers=min(vf.NCPU, 8), timeout=900,
               java_opts=["-Xmx8g"])
     cases = []
     for i, c in enumerate(r.tagged("CASE")):
         has, origin = render_origin(c["o"])
         cases.append({"id": i, "in": {"hasOrigin": has, "origin": origin, "allow": [render_entry(a) for a in c["allow"]]},
                       "acc": sorted(k for k, v in c["acc"].items() if v), "l1": c["l1"]})
+    lap("tlc_gen")
     if len(cases) < 5000:
         raise vf.Infra("generator produced only %d cases" % len(cases))
     cf = vf.write_ndjson(ctx.path("cases.ndjson"), [{"id": c["id"], "in": c["in"]} for c in cases])
@@ -73,8 +83,9 @@ def run(ctx):
     tf = ctx.path("trace_raw.ndjson")
     # one go test run: replay of the table + random records (written to VERIF_OUT2)
     vf.gotest_ok(ctx, pkg, "^TestVerif_C05_(Replay|Trace)$", cases=cf, out=of, env={"VERIF_OUT2": tf},
-                 params={"RUNS": ctx.pick(3000, 40000), "SRVRUNS": ctx.pick(40, 400)})
+                 params={"RUNS": ctx.pick(2000, 40000), "SRVRUNS": ctx.pick(30, 400)})
     obs = {o["id"]: o for o in vf.read_ndjson(of)}
+    lap("go_replay_and_trace")
     nopen = ndrift = 0
     byclass = {}
     for c in cases:
@@ -85,7 +96,7 @@ def run(ctx):
             nopen += 1
         for via in ("func", "mw"):
             got = classify(c["in"]["hasOrigin"], c["in"]["origin"], o[via])
-            if got != c["l1"][7]:
+            if got != c["l1"][4]:  # mask 4 = {OptionalSubdomain}: the deviations of the current code (CodeDevs)
                 ndrift += 1
             if got not in c["acc"]:
                 dev = deviation(c["l1"], got)
@@ -125,13 +136,15 @@ def run(ctx):
                           "explained by code deviation: %s]" % (x["originStr"] if x["hasOrigin"] else None, x["allowStr"],
                                                                  got, x["obs"]["values"], x["via"], dev))
         ndrift += len(tv.tagged("DRIFT"))
+    lap("tlc_trace_validation")
+    ctx.set("phase_wall_s", phase)
     ctx.set("traces_validated_against_impl", 2 * len(cases) + len(recs))
     ctx.set("trace_records", len(recs))
     ctx.set("trace_records_via_server", sum(1 for x in raw if x["via"] == "server"))
     ctx.set("drift_events", ndrift)
     ctx.set("violations_by_deviation", byclass)
     if ndrift:
-        ctx.note("%d observations differ from layer 1 (code model with all deviations) — DRIFT, not a verdict" % ndrift)
+        ctx.note("%d observations differ from layer 1 (code model with its current deviations, CodeDevs) — DRIFT, not a verdict" % ndrift)
     ctx.sample({"trace_record": {"origin": raw[0]["originStr"], "allow": raw[0]["allowStr"], "hdr": recs[0]["hdr"]}})
     ctx.assume("net/url.Parse and regexp are not re-verified; the rendering scheme://host[:port] of a structured origin is trusted")
     ctx.assume("the bounded and random inputs contain no character that is special in a regular expression other than '.' and '*'")
